@@ -1,6 +1,6 @@
 #!/bin/bash
 # runs every claimed check (quick) for the given seeds; prints one line per run
-cd /verif
+cd "$(dirname "$0")/.."
 ids=$(python3 -c "import json; print(' '.join(c['property_id'] for c in json.load(open('MANIFEST.json'))['checks']))")
 for seed in "$@"; do
   for id in $ids; do
